@@ -11,18 +11,23 @@ def run(tier, argv):
     work = vlib.Work(PROP)
     quick = tier == "quick"
     hbin = vlib.build_harness(work)
-    raw = work.path("gen.txt")
-    r = vlib.tlc(work, "GenAst", "GenAst.cfg", consts={"Level": "1" if quick else "2"}, to_file=raw, timeout=3000, heap="12g")
-    rep.add_tlc(r, "GenAst (Ast!RootAST over rule families + special shapes)")
     cases = work.path("cases.ndjson")
     n = 0
+    seen = set()
     with open(cases, "w") as f:
-        for l in vlib.tagged_file(raw, "@@CASE"):
-            f.write(l + "\n")
-            n += 1
-            if n % 130 == 9:
-                c = json.loads(l)
-                rep.sample({"schema": c["schema"], "ast_root": {k: c["ast"][k] for k in ("tt", "st", "v")}})
+        for lvl in (("1",) if quick else ("1", "2")):
+            raw = work.path("gen%s.txt" % lvl)
+            r = vlib.tlc(work, "GenAst", "GenAst.cfg", consts={"Level": lvl}, to_file=raw, timeout=3000, heap="12g")
+            rep.add_tlc(r, "GenAst level %s (Ast!RootAST over rule families + special shapes%s)" % (lvl, "" if lvl == "1" else ", each scalar schema inside five container contexts"))
+            for l in vlib.tagged_file(raw, "@@CASE"):
+                if l in seen:
+                    continue
+                seen.add(l)
+                f.write(l + "\n")
+                n += 1
+                if n % 130 == 9:
+                    c = json.loads(l)
+                    rep.sample({"schema": c["schema"], "ast_root": {k: c["ast"][k] for k in ("tt", "st", "v")}})
     if n == 0:
         raise vlib.Infra("no cases")
     mm = work.path("mism.ndjson")
